@@ -3,6 +3,7 @@ package props
 import (
 	"fmt"
 	"strings"
+	"time"
 
 	"verif/ast"
 	"verif/calcrun"
@@ -55,9 +56,9 @@ func hostileRun(prop string, stmts []ast.Node, doOut bool, family string, extra 
 			break
 		}
 	}
+	calcrun.SetStdin("line one\nline two\n")
 	ses := calcrun.NewSession()
 	ses.StepLimit = 200000
-	calcrun.SetStdin("line one\nline two\n")
 	diverged := false
 	for i, src := range text {
 		obs := ses.Exec(src, doOut)
@@ -215,6 +216,7 @@ func init() {
 				}
 				return hostileRun("C05", stmts, idx%2 == 0, "mutation", c.Name)
 			}},
+			{Name: "binary", Count: countFn(300, 6000), Run: c05Binary},
 			{Name: "typed", Count: countFn(4000, 400000), Run: func(ctx *core.Ctx, idx int) core.Result {
 				r := core.CaseRng(ctx.Seed, "C05/typed", idx)
 				o := gen.DefaultOpts()
@@ -224,7 +226,7 @@ func init() {
 				return hostileRun("C05", g.Session(r.Range(2, 6)), idx%2 == 0, "typed", "")
 			}},
 		},
-		Floors: []core.Floor{{Key: "statements_executed", Quick: 60000, Thor: 5000000}, {Key: "runtime_errors", Quick: 30000, Thor: 2000000}, {Key: "values", Quick: 10000, Thor: 1000000}, {Key: "tag:err:", Quick: 6, Thor: 7}, {Key: "tag:shape:", Quick: 150, Thor: 200}},
+		Floors: []core.Floor{{Key: "statements_executed", Quick: 60000, Thor: 5000000}, {Key: "runtime_errors", Quick: 30000, Thor: 2000000}, {Key: "values", Quick: 10000, Thor: 1000000}, {Key: "tag:err:", Quick: 6, Thor: 7}, {Key: "tag:shape:", Quick: 150, Thor: 200}, {Key: "binary_runs", Quick: 200, Thor: 4000}},
 	})
 	core.MaxInconclusivePct["C05"] = 15
 }
@@ -258,4 +260,43 @@ func mutateTokens(r *core.Rng, src string) string {
 	out = strings.ReplaceAll(out, "{ ", "{\n")
 	out = strings.ReplaceAll(out, " }", "\n}")
 	return out
+}
+
+// c05Binary: hostile programs through the real cmd/calc in file mode: exit
+// status 0 and no Go panic/fatal on stderr.
+func c05Binary(ctx *core.Ctx, idx int) core.Result {
+	r := core.CaseRng(ctx.Seed, "C05/binary", idx)
+	var res core.Result
+	bin := calcrun.CalcBinary()
+	if bin == "" {
+		return core.Result{Verdict: core.Inconclusive, Reason: "no calc binary (VERIF_CALC_BIN)"}
+	}
+	n := r.Range(1, 6)
+	var script strings.Builder
+	for i := 0; i < n; i++ {
+		st := gen.SynBody(r, r.Range(1, 4))
+		if ast.Denotable(st) != "" {
+			continue
+		}
+		script.WriteString(ast.Print(st, nil))
+		script.WriteString("\n")
+	}
+	res.Hash = core.HashString(script.String())
+	path, rm := scratchFile("c05-*.calc", script.String())
+	defer rm()
+	p := calcrun.RunCalc(bin, []string{path}, []byte("l1\nl2\n"), "", 10*time.Second)
+	if p.TimedOut {
+		res.Verdict, res.Reason = core.Inconclusive, "diverged (wall-clock watchdog of the binary leg)"
+		return res
+	}
+	if p.Exit != 0 || strings.Contains(p.Stderr, "panic:") || strings.Contains(p.Stderr, "fatal error") || strings.Contains(p.Stderr, "goroutine ") {
+		res.Verdict = core.Violated
+		res.Viol = &core.Violation{Monitor: "no-abort", Detail: fmt.Sprintf("cmd/calc exited %d on a script without exit(); stderr: %s", p.Exit, trunc(p.Stderr, 400)), Input: map[string]any{"script": script.String()}}
+		return res
+	}
+	res.Add("binary_runs", 1)
+	res.Verdict = core.Held
+	res.Nontrivial = true
+	res.Sample = map[string]any{"family": "binary", "script": script.String()}
+	return res
 }
